@@ -798,7 +798,8 @@ Lemma safe_step_retain w d ids f :
   Safe (step_retain w d ids f).
 Proof.
   intros S OK. unfold step_retain. destruct (get_db w d) as [x|] eqn:G; [|exact S].
-  destruct (OK x eq_refl) as [L MON]. fold (retain_x1 x ids).
+  destruct (OK x eq_refl) as [L MON].
+  destruct (filter (retain_keeps ids) (x_ckpts x)) as [|k0 ks] eqn:FK; [exact S|]. rewrite <- FK. fold (retain_x1 x ids).
   pose proof (safe_save w d x (retain_x1 x ids) f (safe_retain_rearrange w d x ids S G) G L eq_refl eq_refl MON) as R.
   destruct (save_list_f w (retain_x1 x ids) f) as [[w1 x2] ok]. exact R.
 Qed.
